@@ -1,1 +1,306 @@
 //! Reference model `merkle_ref` (independent of the code under test).
+//!
+//! Textbook Merkle trees over an abstract hasher `H`. Only the two primitive hash functions
+//! (`H::hash_or_noop` for leaf data, `H::two_to_one` for inner nodes) and `Hash::to_vec` are taken
+//! from the library (they are judged by C13); all tree logic (levelling, caps, sibling selection,
+//! the documented digest layout, path walking, multi-height "batch" trees, path compression) is
+//! written here from the definitions, level by level and single-threaded.
+
+use std::collections::BTreeSet;
+
+use plonky2::hash::hash_types::RichField;
+use plonky2::plonk::config::{GenericHashOut, Hasher};
+
+/// Outcome of a reference verification.
+#[derive(Clone, Copy, Debug, PartialEq, Eq)]
+pub enum Verdict {
+    /// The walk ends exactly in the addressed cap entry.
+    Accept,
+    /// The walk is well defined and ends in a different digest.
+    Reject,
+    /// The statement is not well formed (addressed cap entry does not exist, leaf heights not
+    /// consumed / not strictly decreasing, more siblings than levels).
+    Malformed,
+}
+
+fn log2_exact(n: usize) -> usize {
+    assert!(n.is_power_of_two(), "reference tree: size {} is not a power of two", n);
+    n.trailing_zeros() as usize
+}
+
+fn pairwise<F: RichField, H: Hasher<F>>(layer: &[H::Hash]) -> Vec<H::Hash> {
+    assert!(layer.len() % 2 == 0);
+    (0..layer.len() / 2)
+        .map(|j| H::two_to_one(layer[2 * j], layer[2 * j + 1]))
+        .collect()
+}
+
+// ------------------------------------------------------------------------------------------
+// Plain tree
+// ------------------------------------------------------------------------------------------
+
+/// `levels[0]` = leaf digests; `levels[l + 1][j] = two_to_one(levels[l][2j], levels[l][2j+1])`;
+/// the last level has `2^cap_height` nodes and is the cap.
+pub struct RefTree<F: RichField, H: Hasher<F>> {
+    pub levels: Vec<Vec<H::Hash>>,
+}
+
+impl<F: RichField, H: Hasher<F>> RefTree<F, H> {
+    pub fn build(leaves: &[Vec<F>], cap_height: usize) -> Self {
+        let log_n = log2_exact(leaves.len());
+        assert!(cap_height <= log_n);
+        let mut levels: Vec<Vec<H::Hash>> = vec![leaves.iter().map(|l| H::hash_or_noop(l)).collect()];
+        while levels.last().unwrap().len() > (1usize << cap_height) {
+            let next = pairwise::<F, H>(levels.last().unwrap());
+            levels.push(next);
+        }
+        RefTree { levels }
+    }
+
+    pub fn cap(&self) -> &[H::Hash] {
+        self.levels.last().unwrap()
+    }
+
+    /// Number of hashing levels below the cap (= expected proof length).
+    pub fn depth(&self) -> usize {
+        self.levels.len() - 1
+    }
+
+    /// Authentication path of leaf `i`, bottom-up: the sibling of the ancestor at each level.
+    pub fn siblings(&self, i: usize) -> Vec<H::Hash> {
+        (0..self.depth()).map(|l| self.levels[l][(i >> l) ^ 1]).collect()
+    }
+
+    /// The digest vector in the layout documented on `MerkleTree::digests`: one contiguous block
+    /// per cap entry; block(node) = block(left child) || left digest || right digest || block(right child).
+    pub fn documented_digest_layout(&self) -> Vec<H::Hash> {
+        let mut out = Vec::new();
+        let top = self.depth();
+        for c in 0..self.cap().len() {
+            layout_rec::<F, H>(&|l, j| self.levels[l][j], top, c, &mut out);
+        }
+        out
+    }
+}
+
+/// `node(l, j)`: digest of node `j` at `l` levels above the bottom of the block.
+fn layout_rec<F: RichField, H: Hasher<F>>(
+    node: &dyn Fn(usize, usize) -> H::Hash,
+    l: usize,
+    j: usize,
+    out: &mut Vec<H::Hash>,
+) {
+    if l == 0 {
+        return;
+    }
+    layout_rec::<F, H>(node, l - 1, 2 * j, out);
+    out.push(node(l - 1, 2 * j));
+    out.push(node(l - 1, 2 * j + 1));
+    layout_rec::<F, H>(node, l - 1, 2 * j + 1, out);
+}
+
+/// Textbook path walk: bit `l` of the index says whether the running node is a right child at
+/// level `l`; after all siblings are consumed the remaining index bits address the cap entry.
+pub fn ref_verify<F: RichField, H: Hasher<F>>(
+    leaf: &[F],
+    index: usize,
+    siblings: &[H::Hash],
+    cap: &[H::Hash],
+) -> Verdict {
+    assert!(siblings.len() < usize::BITS as usize);
+    let mut node = H::hash_or_noop(leaf);
+    for (l, &sib) in siblings.iter().enumerate() {
+        let is_right_child = (index >> l) & 1 == 1;
+        node = if is_right_child {
+            H::two_to_one(sib, node)
+        } else {
+            H::two_to_one(node, sib)
+        };
+    }
+    match cap.get(index >> siblings.len()) {
+        None => Verdict::Malformed,
+        Some(c) if *c == node => Verdict::Accept,
+        Some(_) => Verdict::Reject,
+    }
+}
+
+// ------------------------------------------------------------------------------------------
+// Batch tree (leaves of several heights)
+// ------------------------------------------------------------------------------------------
+
+/// Definition (doc + unit tests `commit_mixed` of batch_merkle_tree.rs): the tallest matrix forms
+/// the bottom layer (`hash_or_noop(row)`); layers are halved pairwise with `two_to_one`; whenever a
+/// layer has as many nodes as a further matrix has rows, node `j` is replaced by
+/// `hash_or_noop(node_j.to_vec() ++ row_j)` *before* it is used as a child or as a cap entry.
+/// `layers[k]` is the (post-injection) layer of height `h0 - k`; the last one is the cap.
+pub struct RefBatchTree<F: RichField, H: Hasher<F>> {
+    pub h0: usize,
+    pub cap_height: usize,
+    pub heights: Vec<usize>,
+    pub layers: Vec<Vec<H::Hash>>,
+}
+
+impl<F: RichField, H: Hasher<F>> RefBatchTree<F, H> {
+    pub fn build(mats: &[Vec<Vec<F>>], cap_height: usize) -> Self {
+        assert!(!mats.is_empty());
+        let heights: Vec<usize> = mats.iter().map(|m| log2_exact(m.len())).collect();
+        assert!(heights.windows(2).all(|w| w[0] > w[1]));
+        assert!(cap_height <= *heights.last().unwrap());
+        let h0 = heights[0];
+        let mut layers: Vec<Vec<H::Hash>> = vec![mats[0].iter().map(|r| H::hash_or_noop(r)).collect()];
+        for h in (cap_height..h0).rev() {
+            let mut layer = pairwise::<F, H>(layers.last().unwrap());
+            debug_assert_eq!(layer.len(), 1 << h);
+            if let Some(k) = heights.iter().position(|&x| x == h) {
+                for (j, node) in layer.iter_mut().enumerate() {
+                    let mut data = node.to_vec();
+                    data.extend_from_slice(&mats[k][j]);
+                    *node = H::hash_or_noop(&data);
+                }
+            }
+            layers.push(layer);
+        }
+        RefBatchTree {
+            h0,
+            cap_height,
+            heights,
+            layers,
+        }
+    }
+
+    pub fn cap(&self) -> &[H::Hash] {
+        self.layers.last().unwrap()
+    }
+
+    pub fn depth(&self) -> usize {
+        self.h0 - self.cap_height
+    }
+
+    pub fn siblings(&self, i: usize) -> Vec<H::Hash> {
+        (0..self.depth()).map(|l| self.layers[l][(i >> l) ^ 1]).collect()
+    }
+
+    /// Rows opened together with bottom index `i`: row `i >> (h0 - h_k)` of matrix `k`.
+    pub fn opened_rows(&self, mats: &[Vec<Vec<F>>], i: usize) -> Vec<Vec<F>> {
+        mats.iter()
+            .zip(&self.heights)
+            .map(|(m, &h)| m[i >> (self.h0 - h)].clone())
+            .collect()
+    }
+
+    /// Digest layout "analogous to MerkleTree": the stages between consecutive leaf heights (and
+    /// finally the cap height) are laid out one after the other, each like a plain tree whose
+    /// leaves are the post-injection nodes of that stage's bottom layer.
+    pub fn documented_digest_layout(&self) -> Vec<H::Hash> {
+        let mut out = Vec::new();
+        let mut bounds = self.heights.clone();
+        bounds.push(self.cap_height);
+        for w in bounds.windows(2) {
+            let (bottom_h, top_h) = (w[0], w[1]);
+            let bottom_layer = self.h0 - bottom_h;
+            for c in 0..(1usize << top_h) {
+                layout_rec::<F, H>(
+                    &|l, j| self.layers[bottom_layer + l][j],
+                    bottom_h - top_h,
+                    c,
+                    &mut out,
+                );
+            }
+        }
+        out
+    }
+}
+
+/// Path walk for a batch opening. `rows[k]` is the opened row of the matrix of height
+/// `heights[k]`; `heights[0]` is the height of the bottom layer.
+pub fn ref_batch_verify<F: RichField, H: Hasher<F>>(
+    rows: &[Vec<F>],
+    heights: &[usize],
+    index: usize,
+    siblings: &[H::Hash],
+    cap: &[H::Hash],
+) -> Verdict {
+    if rows.is_empty() || rows.len() != heights.len() {
+        return Verdict::Malformed;
+    }
+    if !heights.windows(2).all(|w| w[0] > w[1]) {
+        return Verdict::Malformed;
+    }
+    if siblings.len() > heights[0] {
+        return Verdict::Malformed; // more siblings than levels
+    }
+    let mut node = H::hash_or_noop(&rows[0]);
+    let mut pending = 1usize;
+    for (l, &sib) in siblings.iter().enumerate() {
+        node = if (index >> l) & 1 == 1 {
+            H::two_to_one(sib, node)
+        } else {
+            H::two_to_one(node, sib)
+        };
+        let h = heights[0] - (l + 1);
+        if pending < rows.len() && heights[pending] == h {
+            let mut data = node.to_vec();
+            data.extend_from_slice(&rows[pending]);
+            node = H::hash_or_noop(&data);
+            pending += 1;
+        }
+    }
+    if pending != rows.len() {
+        return Verdict::Malformed; // some opened row never entered the walk
+    }
+    match cap.get(index >> siblings.len()) {
+        None => Verdict::Malformed,
+        Some(c) if *c == node => Verdict::Accept,
+        Some(_) => Verdict::Reject,
+    }
+}
+
+// ------------------------------------------------------------------------------------------
+// Path compression
+// ------------------------------------------------------------------------------------------
+
+/// Reference compressed form of the authentication paths of `indices` (in that order) in a tree
+/// of `2^height` leaves with cap height `cap_height`. A sibling is transmitted iff it is neither on
+/// the path of any queried leaf (those nodes are recomputed by the receiver) nor was transmitted
+/// by an earlier path. Nodes are named `(level, position)`.
+pub fn ref_compress<T: Clone>(
+    height: usize,
+    cap_height: usize,
+    indices: &[usize],
+    paths: &[Vec<T>],
+) -> Vec<Vec<T>> {
+    let depth = height - cap_height;
+    let mut derivable: BTreeSet<(usize, usize)> = BTreeSet::new();
+    for &i in indices {
+        for l in 0..depth {
+            derivable.insert((l, i >> l));
+        }
+    }
+    let mut sent: BTreeSet<(usize, usize)> = BTreeSet::new();
+    let mut out = Vec::with_capacity(paths.len());
+    for (&i, path) in indices.iter().zip(paths) {
+        assert_eq!(path.len(), depth);
+        let mut c = Vec::new();
+        for (l, s) in path.iter().enumerate() {
+            let sib = (l, (i >> l) ^ 1);
+            if !derivable.contains(&sib) && sent.insert(sib) {
+                c.push(s.clone());
+            }
+        }
+        out.push(c);
+    }
+    out
+}
+
+/// Size of the minimal sibling set for a multi-opening: siblings of path nodes that are not path nodes.
+pub fn ref_compressed_total(height: usize, cap_height: usize, indices: &[usize]) -> usize {
+    let depth = height - cap_height;
+    let mut on_path: BTreeSet<(usize, usize)> = BTreeSet::new();
+    for &i in indices {
+        for l in 0..depth {
+            on_path.insert((l, i >> l));
+        }
+    }
+    let sibs: BTreeSet<(usize, usize)> = on_path.iter().map(|&(l, p)| (l, p ^ 1)).collect();
+    sibs.difference(&on_path).count()
+}
